@@ -112,3 +112,69 @@ def convert_dvars():
                     && dvars[i].bound is Some && dvars[i].bound->Some_0.lower == qplib.lower_bounds[i] && dvars[i].bound->Some_0.upper == qplib.upper_bounds[i]
                     && dvars[i].name == (if qplib.var_names@.contains_key(i as usize) { Some(qplib.var_names@[i as usize]) } else { None::<String> })
                     && dvars[i].substituted_value is None && dvars[i].subscripts.len() == 0 && dvars[i].description is None,''')])
+
+
+OBJ_SPEC = '''// ---- convert_objective: which linear part is built ----
+// the dense coefficient vector b0: the listed value where there is one, else the default
+pub open spec fn b0_at(q: QplibFile, i: int) -> F64 { if q.b0_non_defaults@.contains_key(i as usize) { q.b0_non_defaults@[i as usize] } else { q.default_b0 } }
+pub open spec fn b0_dense(q: QplibFile) -> Seq<v1::linear::Term> { Seq::new(q.num_vars as nat, |i: int| v1::linear::Term { id: i as u64, coefficient: b0_at(q, i) }) }
+pub open spec fn nzt(t: Seq<v1::linear::Term>) -> Seq<bool> { Seq::new(t.len(), |i: int| !(t[i].coefficient@ == XR::Fin(0real))) }
+// the linear part of the objective: for a zero default, one term per listed entry (SOME order); otherwise one term per variable in index order, the listed value or the default,
+// with the zero coefficients (and only those; a NaN is not zero) removed
+pub open spec fn obj_linear_ok(l: v1::Linear, q: QplibFile) -> bool {
+    &&& l.constant@ == XR::Fin(0real)
+    &&& q.default_b0@ == XR::Fin(0real) ==> exists|e: Seq<(usize, F64)>| #![trigger lp_enum(q.b0_non_defaults@, e)] lp_enum(q.b0_non_defaults@, e) && e.len() == l.terms.len()
+            && forall|k: int| 0 <= k < e.len() ==> (#[trigger] l.terms[k]).id == e[k].0 as u64 && l.terms[k].coefficient == e[k].1
+    &&& !(q.default_b0@ == XR::Fin(0real)) ==> l.terms@ == sel(b0_dense(q), nzt(b0_dense(q)), q.num_vars as int)
+}
+'''
+
+
+def convert_objective():
+    return Unit('qplib::convert::convert_objective', F, 'convert_objective', impl=None, anyhow=False,
+                sig='fn convert_objective(qplib: &QplibFile) -> v1::Function',
+                header='''#[verifier::loop_isolation(false)]
+pub fn convert_objective(qplib: &QplibFile) -> (r: v1::Function)
+    requires forall|k: (usize, usize)| #[trigger] qplib.q0_non_zeroes@.contains_key(k) ==> qplib.q0_non_zeroes@[k]@ is Fin,
+        // observation: with a non-zero default, a listed linear coefficient for a variable index >= num_vars is an index out of bounds (panic)
+        forall|k: usize| #[trigger] qplib.b0_non_defaults@.contains_key(k) ==> k < qplib.num_vars,
+    ensures
+        // 1/2 x'Q0x + b0'x + q0: the function wrap_function builds from the COO form of Q0 (to_quadratic), the linear part obj_linear_ok and the constant
+        r.function is Some,
+        exists|quad: v1::Quadratic, lin: v1::Linear| #![trigger obj_linear_ok(lin, *qplib), quad_n(quad)] obj_linear_ok(lin, *qplib) && quad.linear is None
+            && fn_ids(r).subset_of(quad_ids(quad.rows@, quad.columns@, quad_n(quad)).union(linear_ids(lin)))
+            && (exists|e: Seq<((usize, usize), F64)>| #![trigger qp_enum(qplib.q0_non_zeroes@, e)] qp_enum(qplib.q0_non_zeroes@, e) && e.len() == quad.rows.len() && quad.rows.len() == quad.columns.len() && quad.rows.len() == quad.values.len()
+                && forall|k: int| 0 <= k < e.len() ==> quad.rows[k] == (#[trigger] e[k]).0.0 as u64 && quad.columns[k] == e[k].0.1 as u64
+                    && quad.values[k]@ == XR::Fin(if e[k].0.0 == e[k].0.1 { e[k].1@->Fin_0 / 2real } else { e[k].1@->Fin_0 }))
+            && (vals_fin(quad.values@) && terms_fin(lin.terms@) && fin(qplib.obj_constant) ==> fn_fin(r)
+                && forall|m: Map<u64, F64>| #![trigger fn_val(r, m)] fn_val(r, m) == quad_sum(quad.rows@, quad.columns@, quad.values@, quad_n(quad), m) + lin_all(lin.terms@, m) + rv(qplib.obj_constant)),''',
+                subs=[('qplib.b0_non_defaults.iter()', 'hashmap_iter_collect(&qplib.b0_non_defaults)')],
+                rsubs=[(r'terms\[i\]\.coefficient = coeff;', 'let mut __elt = terms[i].vclone(); __elt.coefficient = coeff; terms.set(i, __elt);', 1),   # R33: field assignment through a Vec index
+                       (r'(?s)terms\.retain\((.*?)\);', r'let __c2 = \1; vec_retain(&mut terms, __c2);', 1),
+                       (r'wrap_function\(quadratic, linear, qplib\.obj_constant\)\s*\}\s*$', 'let ghost gq = quadratic; let ghost gl = linear; let __r = wrap_function(quadratic, linear, qplib.obj_constant); proof { assert(obj_linear_ok(gl, *qplib)); } __r }', 1)],
+                closures=[dict(params='i', typed='i: u64', ret='v1::linear::Term', ensures='ret.id == i && ret.coefficient == qplib.default_b0'),
+                          dict(params='t', typed='t: &v1::linear::Term', ret='bool', ensures='ret == !(t.coefficient@ == XR::Fin(0real))')],
+                loops=[dict(kind='for', it='it_1', pat='(i, coeff)', rebind='(*__e.0, *__e.1)', body_proof=' proof { assert(*__e == __h1[it_1.index@ as int]); }',
+                            inv='''invariant
+                terms.len() == qplib.num_vars,
+                forall|j: int| 0 <= j < __h1.len() ==> qplib.b0_non_defaults@.contains_key(*(#[trigger] __h1[j]).0) && qplib.b0_non_defaults@[*__h1[j].0] == *__h1[j].1,
+                forall|k: usize| qplib.b0_non_defaults@.contains_key(k) ==> exists|j: int| 0 <= j < __h1.len() && *(#[trigger] __h1[j]).0 == k,
+                forall|a: int, b: int| 0 <= a < b < __h1.len() ==> *(#[trigger] __h1[a]).0 != *(#[trigger] __h1[b]).0,
+                forall|k: int| 0 <= k < terms.len() ==> (#[trigger] terms[k]).id == k as u64
+                    && terms[k].coefficient == (if exists|j: int| 0 <= j < it_1.index@ && *(#[trigger] __h1[j]).0 == k as usize { qplib.b0_non_defaults@[k as usize] } else { qplib.default_b0 }),''')],
+                proofs=[(('before', r'let __c2 = '), '''proof {
+            assert(terms@ =~= b0_dense(*qplib)) by {
+                assert forall|k: int| 0 <= k < terms.len() implies #[trigger] terms@[k] == b0_dense(*qplib)[k] by {
+                    if qplib.b0_non_defaults@.contains_key(k as usize) { let j = choose|j: int| 0 <= j < __h1.len() && *(#[trigger] __h1[j]).0 == k as usize; assert(*__h1[j].0 == k as usize); }
+                }
+            }
+        }
+        let ghost dense = terms@;
+        '''),
+                        (('before', r'v1::Linear \{\s*terms,'), '''proof {
+            let b = choose|b: Seq<bool>| b.len() == dense.len() && (forall|i: int| 0 <= i < dense.len() ==> __c2.ensures((&dense[i],), #[trigger] b[i])) && terms@ == sel(dense, b, dense.len() as int);
+            assert forall|i: int| 0 <= i < dense.len() implies b[i] == nzt(dense)[i] by { assert(__c2.ensures((&dense[i],), b[i])); }
+            lemma_sel_ext(dense, b, nzt(dense), dense.len() as int);
+        }
+            ''')],
+                post_subs=[])
